@@ -98,13 +98,39 @@ def _power(x, k, *args, **kwargs):
     return numpy.power(x, k, *args, **kwargs)
 
 
+def _sqrt(x, *args, **kwargs):
+    # numpy.sqrt on an object array needs a .sqrt() method on EVERY element; plain Python numbers mixed in have none
+    if isinstance(x, numpy.ndarray) and x.dtype == object and not args and not kwargs:
+        HITS.add("numpy.sqrt on object arrays: elementwise (.sqrt() of symbolic terms, math.sqrt of plain numbers)")
+        out = numpy.empty(x.shape, dtype=object)
+        for idx in numpy.ndindex(x.shape):
+            v = x[idx]
+            out[idx] = v.sqrt() if hasattr(v, "sqrt") else math.sqrt(v)
+        return out
+    return numpy.sqrt(x, *args, **kwargs)
+
+
 OVERRIDES = {
+    "sqrt": _sqrt,
     "array": _array,
     "asarray": _asarray,
     "empty": _empty,
     "zeros": _zeros,
     "isnan": _isnan,
 }
+
+
+_NATIVE = [0]
+
+
+@contextlib.contextmanager
+def native():
+    """Suspend every override (native replays of counterexamples must see the real numpy even inside a patched region)."""
+    _NATIVE[0] += 1
+    try:
+        yield
+    finally:
+        _NATIVE[0] -= 1
 
 
 class NumpyProxy(types.ModuleType):
@@ -114,7 +140,7 @@ class NumpyProxy(types.ModuleType):
 
     def __getattr__(self, name):
         ov = self.__dict__["_ov"]
-        if name in ov:
+        if name in ov and not _NATIVE[0]:
             return ov[name]
         return getattr(numpy, name)
 
